@@ -4,6 +4,7 @@ use super::Prop;
 use crate::cases::*;
 use crate::core::*;
 use crate::gens::*;
+use datamatrix::EncodationType;
 use proptest::prelude::*;
 use refimpl::codec::{ascii_greedy, min_len, ref_decode, run_script, Mode, Step};
 use serde_json::{json, Map, Value};
@@ -20,7 +21,13 @@ pub static PROP: Prop = Prop {
         "open finding D13 (planner search not exhaustive): corpus inputs are listed individually in known_findings.json; in seeded exploration a sub-optimal result is attributed to it only if the planner priced the plan it selected, the encoder realised it and the list lookup was right (hook H1)",
     ],
     extra,
+    fuzz_runs: 100000,
 };
+
+static COUNTS: std::sync::Mutex<std::collections::BTreeMap<&'static str, u64>> = std::sync::Mutex::new(std::collections::BTreeMap::new());
+fn bump(k: &'static str) {
+    *COUNTS.lock().unwrap().entry(k).or_insert(0) += 1;
+}
 
 static DUMP: std::sync::OnceLock<std::sync::Mutex<Vec<Value>>> = std::sync::OnceLock::new();
 
@@ -108,6 +115,57 @@ fn find_witness(data: &[u8], caps: &[usize], modes: u8) -> WitnessResult {
     }
 }
 
+
+/// The witness script as mode paths for hook H3 (`verif::price_path`): `(characters left, mode)`
+/// pairs.  Forms that end with an implicit ASCII tail are offered in two readings (the latched
+/// mode runs to the end of the data / an explicit switch to ASCII before the tail); the planner's
+/// price of the witness is the cheaper reading it can follow.
+fn witness_paths(script: &[Step], n: usize) -> Vec<Vec<(usize, EncodationType)>> {
+    let mut a: Vec<(usize, EncodationType)> = Vec::new();
+    let mut tail_switch: Option<(usize, EncodationType)> = None;
+    let mut pos = 0usize;
+    let mut cur = Mode::Ascii;
+    for st in script {
+        let (m, len, tail) = match st {
+            Step::A1 => (Mode::Ascii, 1, 0),
+            Step::A2 => (Mode::Ascii, 2, 0),
+            Step::Seg(m, l) => (*m, *l, 0),
+            Step::FinalC40Exact(m, l) | Step::FinalC40Pad(m, l) => (*m, *l, 0),
+            Step::FinalC40UnlatchAscii(m, l) | Step::FinalC40ImplicitAscii(m, l) => (*m, *l, 1),
+            Step::FinalX12Exact(l) => (Mode::X12, *l, 0),
+            Step::FinalX12ImplicitAscii(l) => (Mode::X12, *l, 1),
+            Step::FinalEdifactExact(l) => (Mode::Edifact, *l, 0),
+            Step::FinalEdifactAscii(l, t) => (Mode::Edifact, *l + *t, *t),
+            Step::FinalBase256ToEnd(l) => (Mode::Base256, *l, 0),
+        };
+        if m != cur {
+            a.push((n - pos, crate_mode(m)));
+        }
+        cur = m;
+        if tail > 0 {
+            tail_switch = Some((n - (pos + len - tail), EncodationType::Ascii));
+        }
+        pos += len;
+    }
+    match tail_switch {
+        Some(t) => {
+            let mut b = a.clone();
+            b.push(t);
+            vec![a, b]
+        }
+        None => vec![a],
+    }
+}
+
+/// the planner's own price (whole codewords) of the witness, by hook H3
+fn planner_price_of_witness(c: &EncCase, script: &[Step]) -> Option<usize> {
+    let list = mask_to_list(c.list);
+    witness_paths(script, c.data.len())
+        .iter()
+        .filter_map(|p| guard(|| datamatrix::verif::price_path(&c.data, &list, p)).ok().flatten())
+        .min()
+}
+
 /// plain ASCII / plain Base256 bounds (claim 1): smallest listed capacity that holds them
 fn plain_bound(data: &[u8], caps: &[usize], modes: u8) -> Option<(usize, &'static str)> {
     let mut best: Option<(usize, &'static str)> = None;
@@ -157,6 +215,17 @@ pub fn check_with(c: &EncCase, strict: Strictness, ctx: &Ctx) -> Verdict {
     };
     if let Some(w) = better {
         // the crate is worse than a verified standard-conformant encoding
+        // what does the planner's own cost model say about the witness? (hook H3)
+        let priced = planner_price_of_witness(c, &w.script);
+        let priced_fits = priced.map_or(false, |p| p <= w.cap);
+        bump(match priced {
+            None => "witness_unpriceable_by_planner",
+            Some(_) if priced_fits => "witness_priced_fits(search lost it)",
+            Some(_) => "witness_overpriced_by_planner",
+        });
+        if !priced_fits && std::env::var("VERIF_C10_TRACE").is_ok() {
+            eprintln!("TRACE price={:?} wcap={} wlen={} crate_cap={:?} script={:?} paths={:?} data={:?} modes={} list={}", priced, w.cap, w.len, crate_cap, w.script, witness_paths(&w.script, c.data.len()), show(&c.data), mode_names(c.modes), mask_names(c.list));
+        }
         let sig = c.signature();
         if ctx.is_known(&sig).is_some() {
             return Verdict::Known(sig);
@@ -210,14 +279,23 @@ pub fn check_with(c: &EncCase, strict: Strictness, ctx: &Ctx) -> Verdict {
                 },
                 _ => false,
             };
-            if attributed {
+            // ... and the planner's own cost model does not contradict the witness: asked to price the
+            // witness's mode path (hook H3) it either cannot follow it (the path lies outside its search
+            // space: a switch inside an "unbeatable" run) or prices it as fitting the smaller symbol, i.e.
+            // the search merely lost it.  A witness the planner can follow but prices as NOT fitting is a
+            // defect of the cost model (a mode or end-of-data form priced too high), not of the search.
+            let model_agrees = priced.map_or(true, |p| p <= w.cap);
+            if attributed && model_agrees {
                 return Verdict::Known(FAMILY_SIG.to_string());
+            }
+            if attributed {
+                return fail(format!("{} [not attributable to the open planner finding: the planner's own cost model prices the witness path at {} codewords, more than its real length {} and than the capacity {} it fits]", reason, priced.unwrap_or(0), w.len, w.cap));
             }
             return fail(format!("{} [not attributable to the open planner finding: planner stats {:?}]", reason, stats));
         }
         if let Some(dump) = DUMP.get() {
             // developer mode (VERIF_C10_DUMP=file): collect every sub-optimal case instead of failing
-            dump.lock().unwrap().push(json!({"case": c.to_json(), "signature": c.signature(), "crate_capacity": crate_cap, "witness_capacity": w.cap, "witness_len": w.len, "reason": reason, "stage": format!("{:?}", strict)}));
+            dump.lock().unwrap().push(json!({"case": c.to_json(), "signature": c.signature(), "crate_capacity": crate_cap, "witness_capacity": w.cap, "witness_len": w.len, "planner_price_of_witness": priced, "witness_script": format!("{:?}", w.script), "reason": reason, "stage": format!("{:?}", strict)}));
             return Verdict::Pass(Pass::new("dumped-suboptimal", false).count("dumped", 1));
         }
         return fail(reason);
@@ -352,6 +430,7 @@ fn extra(ctx: &Ctx) -> Map<String, Value> {
     m.insert("known_finding_D13_exact_corpus_hits".into(), json!(exact));
     m.insert("known_finding_D13_family_attributions".into(), json!(hits.get(FAMILY_SIG).copied().unwrap_or(0)));
     m.insert("known_findings_listed".into(), json!(ctx.known_open.len()));
+    m.insert("suboptimal_cases_by_planner_price_of_witness".into(), json!(*COUNTS.lock().unwrap()));
     m
 }
 
@@ -399,7 +478,7 @@ fn run_stages(ctx: &Arc<Ctx>) {
     ctx.run_enumerated("corpus", "enc", corpus, Some("fixed corpus: all strings of length <= 5 over a 7 letter alphabet + fixed-seed sample, 3 configurations"), |c| check_with(c, Strictness::Corpus, ctx));
     // (b) seeded exploration
     let o = EncGenOpts { long_weight: 0, macro_weight: 0, allow_fnc1: false, allow_macros_flag: false, short_only: true, ..Default::default() };
-    ctx.run_generated("explore", "enc-explore", ctx.cases(30_000, 1_000_000), || g_enc_case(o).prop_map(|mut c| { c.macros = false; c }), |c| check_with(c, Strictness::Explore, ctx));
+    ctx.run_generated("explore", "enc-explore", ctx.cases(200_000, 3_000_000), || g_enc_case(o).prop_map(|mut c| { c.macros = false; c }), |c| check_with(c, Strictness::Explore, ctx));
 }
 
 fn replay(ctx: &Ctx, kind: &str, case: &Value) -> Option<Verdict> {
